@@ -33,6 +33,19 @@ type faultBank struct {
 	seen        []bool // what actually happened per call (true = failed)
 	sweepFailed bool
 	payoutOnly  bool // planned failures hit payouts and burns only; sweeps of the sources go through
+	sweeps      map[string][]sweepRec // this block: per swept address its sweeps in order (what was asked for, and whether it went through)
+}
+
+type sweepRec struct {
+	amt sdk.Coins
+	ok  bool
+}
+
+func (f *faultBank) noteSweep(from sdk.AccAddress, amt sdk.Coins, ok bool) {
+	if f.sweeps == nil {
+		f.sweeps = map[string][]sweepRec{}
+	}
+	f.sweeps[from.String()] = append(f.sweeps[from.String()], sweepRec{amt, ok})
 }
 
 func (f *faultBank) call(do func() error) error { return f.callKind(do, false) }
@@ -67,6 +80,7 @@ func (f *faultBank) SendCoinsFromAccountToModule(ctx sdk.Context, a sdk.AccAddre
 	if err != nil {
 		f.sweepFailed = true
 	}
+	f.noteSweep(a, amt, err == nil)
 	return err
 }
 func (f *faultBank) SendCoinsFromModuleToAccount(ctx sdk.Context, m string, a sdk.AccAddress, amt sdk.Coins) error {
@@ -79,6 +93,9 @@ func (f *faultBank) SendCoinsFromModuleToModule(ctx sdk.Context, m1, m2 string, 
 	err := f.callKind(func() error { return f.inner.SendCoinsFromModuleToModule(ctx, m1, m2, amt) }, m2 == distrtypes.DistributorMainAccount)
 	if err != nil && m2 == distrtypes.DistributorMainAccount {
 		f.sweepFailed = true
+	}
+	if m2 == distrtypes.DistributorMainAccount {
+		f.noteSweep(authtypes.NewModuleAddress(m1), amt, err == nil)
 	}
 	return err
 }
@@ -869,6 +886,91 @@ func (o *distrOracle) block(arrivals ratCoins, sweep func(a dAcc) ratCoins) {
 	}
 }
 
+// ---------------------------------------------------------------- events vs moved coins (C18) ------
+// eventFlowCheck follows one block sub-distributor by sub-distributor using only what was observable from outside: the states and the
+// main balance before the block, the bank's log of sweeps (what was asked for, whether it went through), and the typed events.
+// A sub-distributor's inflow is what its sources really brought: the unbooked part of the main balance for MAIN, the coins of a
+// sweep that went through, and the recorded remains of the source that are re-queued; its Distribution / DistributionBurn events
+// must add up to exactly that (Dec arithmetic is exact here: the primary share is the inflow minus the truncated shares).  The
+// events then say which states were credited, which gives the next sub-distributor's re-queued remains.  Unlike the exact-share
+// oracle this also judges blocks in which a sweep failed.
+func (e *distrEnv) eventFlowCheck(c distrCfg, pre []distrtypes.State, mainBefore sdk.Coins, sweeps map[string][]sweepRec, evs sdk.Events) (ok bool, detail string) {
+	rem := map[string]sdk.DecCoins{}
+	for _, st := range pre {
+		rem[st.GetStateKey()] = st.Remains
+	}
+	mainBal := sdk.NewDecCoinsFromCoins(mainBefore...)
+	next := map[string]int{}
+	type evRec struct {
+		key string // state key credited ("" = the main account itself)
+		amt sdk.DecCoins
+	}
+	perSd := map[string][]evRec{}
+	for _, ev := range evs {
+		if !strings.Contains(ev.Type, "cfedistributor") {
+			continue
+		}
+		msg, err := sdk.ParseTypedEvent(abci.Event(ev))
+		if err != nil {
+			return false, "typed event could not be parsed"
+		}
+		switch m := msg.(type) {
+		case *distrtypes.Distribution:
+			key := ""
+			if m.Destination != nil && m.Destination.Type != distrtypes.Main {
+				key = dAcc{m.Destination.Type, m.Destination.Id}.key()
+			}
+			perSd[m.Subdistributor] = append(perSd[m.Subdistributor], evRec{key, m.Amount})
+		case *distrtypes.DistributionBurn:
+			perSd[m.Subdistributor] = append(perSd[m.Subdistributor], evRec{distrtypes.BurnStateKey, m.Amount})
+		}
+	}
+	for _, sd := range c.subs {
+		inflow := sdk.DecCoins{}
+		for _, src := range sd.sources {
+			switch src.typ {
+			case distrtypes.Main:
+				booked := sdk.DecCoins{}
+				for _, r := range rem {
+					booked = booked.Add(r...)
+				}
+				unb, neg := mainBal.SafeSub(booked)
+				if neg {
+					return false, fmt.Sprintf("sub-distributor %s: more is booked (%s) than the main account holds (%s)", sd.name, booked, mainBal)
+				}
+				inflow = inflow.Add(unb...)
+			default:
+				if src.typ != distrtypes.InternalAccount {
+					ad := e.addrOf(src).String()
+					if q := sweeps[ad]; next[ad] < len(q) {
+						if q[next[ad]].ok {
+							moved := sdk.NewDecCoinsFromCoins(q[next[ad]].amt...)
+							inflow = inflow.Add(moved...)
+							mainBal = mainBal.Add(moved...)
+						}
+						next[ad]++
+					}
+				}
+				if r := rem[src.key()]; !r.IsZero() {
+					inflow = inflow.Add(r...)
+					rem[src.key()] = sdk.DecCoins{}
+				}
+			}
+		}
+		reported := sdk.DecCoins{}
+		for _, r := range perSd[sd.name] {
+			reported = reported.Add(r.amt...)
+			if r.key != "" {
+				rem[r.key] = rem[r.key].Add(r.amt...)
+			}
+		}
+		if !reported.IsEqual(inflow) {
+			return false, fmt.Sprintf("sub-distributor %s: its events add up to %s, its sources brought %s", sd.name, reported, inflow)
+		}
+	}
+	return true, ""
+}
+
 // ---------------------------------------------------------------- the case ------------------
 func runDistrCase(ta *TestApp, seed uint64, idx int, rep *Report, profile string) string {
 	rng := NewRng(seed, uint64(idx)+13000000)
@@ -1159,6 +1261,9 @@ func runDistrCase(ta *TestApp, seed uint64, idx int, rep *Report, profile string
 				fb.inject = pb.inject
 			}
 			fb.seen = nil
+			fb.sweeps = nil
+			preStates := k.GetAllStates(rctx)
+			mainBefore := app.BankKeeper.GetAllBalances(rctx, mainAddr)
 			bctx := rctx.WithEventManager(sdk.NewEventManager())
 			supplyBefore := app.BankKeeper.GetSupply(rctx, denomNames[0])
 			_ = supplyBefore
@@ -1242,6 +1347,15 @@ func runDistrCase(ta *TestApp, seed uint64, idx int, rep *Report, profile string
 					fmt.Sprintf("held %s + burned %s != arrived %s", have, burned, totalIn))
 				// ---- C18: a sub-distributor's events add up to its inflow (exact oracle)
 				rep.Eval("C18.events_parse", evOk, idx, bIdx, "typed event could not be parsed")
+				if cls == "" && !(retyped && updated) {
+					// ---- C18: the events of every sub-distributor add up to what its sources really brought (also when a sweep failed)
+					okFlow, dFlow := e.eventFlowCheck(cur, preStates, mainBefore, fb.sweeps, bctx.EventManager().Events())
+					nm := "C18.events_add_up_to_what_the_sources_brought"
+					if _, _, _, _, k5now := cur.classes(mainAddr.String()); k5now { // (of the configuration in force)
+						nm += ".K5"
+					}
+					rep.Eval(nm, okFlow, idx, bIdx, dFlow)
+				}
 				{ // ---- C04: a block credits only accounts of the configuration in force: the leftovers recorded for anybody else do not grow
 					inCfg := map[string]bool{distrtypes.BurnStateKey: true}
 					cc := cur.clone()
